@@ -106,12 +106,38 @@ def code_value(node):
     return norm_text(node)
 
 
-def parser_defaults(ctx):
+def _defaults_dict(ctx):
+    """(Dict node, how it is handed out) for watcher_defaults(): 'fresh' when the dict is
+    built anew by each call, 'shallow' / 'alias' / 'deep' when it is a module-level table
+    returned through dict()/.copy(), as is, or through copy.deepcopy()."""
     f = ctx.fn('circus.config:watcher_defaults')
+    mod = ctx.p.mod('circus.config')
     for n in ast.walk(f.node):
-        if isinstance(n, ast.Return) and isinstance(n.value, ast.Dict):
-            return {astq.const_value(k): v for k, v in zip(n.value.keys, n.value.values)}, f
+        if isinstance(n, ast.Return) and n.value is not None:
+            v = n.value
+            if isinstance(v, ast.Dict):
+                return v, 'fresh', f
+            how, src = None, None
+            if isinstance(v, ast.Name):
+                how, src = 'alias', v
+            elif isinstance(v, ast.Call) and dotted(v.func) == 'dict' and len(v.args) == 1:
+                how, src = 'shallow', v.args[0]
+            elif isinstance(v, ast.Call) and isinstance(v.func, ast.Attribute) and \
+                    v.func.attr == 'copy' and not v.args:
+                how, src = 'shallow', v.func.value
+            elif isinstance(v, ast.Call) and dotted(v.func) in ('copy.copy', 'copy') and v.args:
+                how, src = 'shallow', v.args[0]
+            elif isinstance(v, ast.Call) and dotted(v.func) in ('copy.deepcopy', 'deepcopy') \
+                    and v.args:
+                how, src = 'deep', v.args[0]
+            if isinstance(src, ast.Name) and isinstance(mod.assigns.get(src.id), ast.Dict):
+                return mod.assigns[src.id], how, f
     raise AnalysisError('C16: watcher_defaults() does not return a dict display')
+
+
+def parser_defaults(ctx):
+    d, how, f = _defaults_dict(ctx)
+    return {astq.const_value(k): v for k, v in zip(d.keys, d.values)}, f
 
 
 def ctor_defaults(ctx):
@@ -222,6 +248,18 @@ DOC_EXCEPTIONS = {
 
 def r1(run, ctx):
     run.rule('R1', 'documented defaults = parser defaults = constructor defaults')
+    # every watcher section starts from its OWN defaults: the nested containers
+    # (rlimits, hooks, stream options) are filled in place by the typing loop
+    d_, how_, f_ = _defaults_dict(ctx)
+    from rules.common import is_fresh_container
+    nested = [astq.const_value(k) for k, v in zip(d_.keys, d_.values) if is_fresh_container(v)]
+    run.check('R1', how_ in ('fresh', 'deep') or not nested,
+              'each call of watcher_defaults() builds new nested containers', f_, f_.node,
+              'watcher_defaults() hands out a %s of a module-level table: the nested dicts %s '
+              'are one object shared by every watcher section and by every later parse, so '
+              'rlimit_*/hooks.*/stream options of one watcher show up in all others and survive '
+              'a reload' % ({'shallow': 'shallow copy', 'alias': 'reference'}.get(how_, how_),
+                            nested), construct='watcher defaults share nested containers')
     doc = doc_defaults(ctx)
     pd, pf = parser_defaults(ctx)
     cd, cf = ctor_defaults(ctx)
